@@ -9,7 +9,7 @@ Import ListNotations.
 Require Import PV.Core.Obj PV.Core.Val PV.Core.Cls PV.Core.Member.
 
 (* unite_values on KnownValues of the elements: equal (and hash-equal) literals are merged *)
-Definition lit_E (a b : obj) : bool := literal_heq a b && same_literal a b.
+Definition lit_E (a b : obj) : bool := literal_heq a b && lit_key_eq a b.
 Definition dedup_lits (es : list obj) : list obj := dedup lit_E es.
 
 Section CanAssignK.
